@@ -52,7 +52,12 @@ def genPattern (kind r m : Nat) (seed : UInt64) : BA :=
 
 /-- Inputs at the top of the domain (see `gen_top` in the harness). -/
 def genTop (kind n : Nat) (seed : UInt64) : BA :=
-  if kind == 0 then
+  if kind ≥ 2 then
+    let t := min (20 + (seed % 1981).toNat) n
+    let noise := smBytes seed t
+    let run : BA := Array.replicate (n - t) (seed >>> 8).toUInt8
+    if kind == 2 then run ++ noise else noise ++ run
+  else if kind == 0 then
     let a := seed.toUInt8
     let v := Array.replicate n (a + 1)
     if n > 0 then (v.set! 0 a).set! (n - 1) (a + 2) else v
